@@ -3,10 +3,12 @@ package props
 import (
 	"fmt"
 	"go/ast"
+	"go/constant"
 	"go/parser"
 	"go/token"
 	"go/types"
 	"path/filepath"
+	"regexp"
 	"strings"
 
 	"octoverif/core"
@@ -92,6 +94,9 @@ func checkLinesSplit(c *core.Ctx) {
 	c.SawFunc("datasources/lines.(*DatasourceExecuting).Run")
 	info := fn.Info()
 	var lit *ast.FuncLit
+	// for a split function made by a factory: the factory and the arguments it was called with
+	var factory *ast.FuncLit
+	var factoryArgs []ast.Expr
 	ast.Inspect(fn.Decl.Body, func(n ast.Node) bool {
 		if call, ok := n.(*ast.CallExpr); ok && p.CalleeName(info, call) == "bufio.(*Scanner).Split" && len(call.Args) == 1 {
 			if l := funcValueLit(p, fn, call.Args[0]); l != nil {
@@ -99,10 +104,10 @@ func checkLinesSplit(c *core.Ctx) {
 			} else if fc, ok := core.Unparen(call.Args[0]).(*ast.CallExpr); ok {
 				// a factory of the same package: `sc.Split(splitOnSeparator(d.separator))` with
 				// `func splitOnSeparator(sep string) bufio.SplitFunc { return func(…) … }`
-				if factory := funcValueLit(p, fn, fc.Fun); factory != nil && len(factory.Body.List) > 0 {
-					if rs, ok := factory.Body.List[len(factory.Body.List)-1].(*ast.ReturnStmt); ok && len(rs.Results) == 1 {
+				if f := funcValueLit(p, fn, fc.Fun); f != nil && len(f.Body.List) > 0 {
+					if rs, ok := f.Body.List[len(f.Body.List)-1].(*ast.ReturnStmt); ok && len(rs.Results) == 1 {
 						if l, ok := core.Unparen(rs.Results[0]).(*ast.FuncLit); ok {
-							lit = l
+							lit, factory, factoryArgs = l, f, fc.Args
 						}
 					}
 				}
@@ -220,11 +225,43 @@ func checkLinesSplit(c *core.Ctx) {
 		}
 		c.Decide(bad == "", "SPLIT", ckey, lit.Pos(), len(outs), "advance/token as required", bad)
 	}
-	// the separator searched for is the configured one
+	// the separator searched for is the configured one: the second argument of bytes.Index, followed through
+	// conversions, single-definition locals of the factory and the factory's parameters to the call site
+	var resolveSep func(e ast.Expr, depth int) string
+	resolveSep = func(e ast.Expr, depth int) string {
+		e = core.Unparen(e)
+		if depth > 5 {
+			return core.ExprStr(e)
+		}
+		switch x := e.(type) {
+		case *ast.CallExpr:
+			if len(x.Args) == 1 && core.ExprStr(x.Fun) == "[]byte" {
+				return resolveSep(x.Args[0], depth+1)
+			}
+		case *ast.Ident:
+			obj, _ := info.Uses[x].(*types.Var)
+			if obj == nil || factory == nil {
+				break
+			}
+			k := 0
+			for _, f := range factory.Type.Params.List {
+				for _, nm := range f.Names {
+					if info.Defs[nm] == obj && k < len(factoryArgs) {
+						return core.ExprStr(factoryArgs[k])
+					}
+					k++
+				}
+			}
+			if def := singleDef(info, factory.Body, obj); def != nil {
+				return resolveSep(def, depth+1)
+			}
+		}
+		return core.ExprStr(e)
+	}
 	sepOK := false
 	ast.Inspect(lit.Body, func(n ast.Node) bool {
 		if call, ok := n.(*ast.CallExpr); ok && p.CalleeName(info, call) == "bytes.Index" && len(call.Args) == 2 {
-			if strings.Contains(core.ExprStr(call.Args[1]), ".separator") && core.ExprStr(call.Args[0]) == dataName {
+			if strings.Contains(resolveSep(call.Args[1], 0), ".separator") && core.ExprStr(call.Args[0]) == dataName {
 				sepOK = true
 			}
 		}
@@ -289,67 +326,140 @@ func checkLinesNumbering(c *core.Ctx) {
 		c.Unknown("LINENO", key, fn.Decl.Pos(), "no `for sc.Scan()` loop found")
 		return
 	}
-	// the counter: the variable given to NewInt for the `number` field
-	var counter types.Object
-	var textOK bool
-	ast.Inspect(loop.Body, func(n ast.Node) bool {
-		cc, ok := n.(*ast.CaseClause)
-		if !ok || len(cc.List) != 1 {
-			return true
+	// One iteration (body, then the post statement) is interpreted with the counter symbolic, once for a field named
+	// "number" and once for a field named "text": the number stored is the counter's value at the start of the
+	// iteration, the text is the scanner's, and on every path that goes on the counter ends one higher.
+	iter := &ast.BlockStmt{List: append([]ast.Stmt{}, loop.Body.List...)}
+	if loop.Post != nil {
+		iter.List = append(iter.List, loop.Post)
+	}
+	ids := typeIDs(p)
+	counterName, textOK, bad := "", false, ""
+	paths := 0
+	for _, field := range []string{"number", "text"} {
+		field := field
+		in := newInterp(p, fn)
+		in.Hooks.Loop = func(st *absint.State, l ast.Stmt) *absint.LoopSpec {
+			return &absint.LoopSpec{Cases: []string{field}, MaxIter: 1, MinIter: 1, RefStep: func(ref, cs string) string { return ref }}
 		}
-		lbl := core.ExprStr(cc.List[0])
-		ast.Inspect(cc, func(m ast.Node) bool {
-			call, ok := m.(*ast.CallExpr)
-			if !ok {
-				return true
-			}
-			switch {
-			case lbl == `"number"` && p.CalleeName(info, call) == "octosql.NewInt" && len(call.Args) == 1:
-				if id, ok := call.Args[0].(*ast.Ident); ok {
-					counter = info.ObjectOf(id)
+		in.Hooks.Cond = func(st *absint.State, atom string) (bool, bool) {
+			for _, f := range []string{"number", "text"} {
+				if strings.Contains(atom, `"`+f+`"`) && strings.Contains(atom, " == ") {
+					return f == field, true
 				}
-			case lbl == `"text"` && p.CalleeName(info, call) == "octosql.NewString" && len(call.Args) == 1:
-				if inner, ok := call.Args[0].(*ast.CallExpr); ok && p.CalleeName(info, inner) == "bufio.(*Scanner).Text" {
-					textOK = true
+			}
+			return false, false
+		}
+		in.Hooks.Call = chainCall(recordCtorHook, func(st *absint.State, call *ast.CallExpr, callee string, recv absint.Val, args []absint.Val) (absint.Val, bool) {
+			switch callee {
+			case "bufio.(*Scanner).Text":
+				return absint.S("SCANNED-TEXT"), true
+			case "value:produce":
+				st.Emit("PRODUCE", call.Pos(), args...)
+				return absint.Nil{}, true
+			case "octosql.NewInt", "octosql.NewString":
+				if len(args) == 1 {
+					st.Emit("FIELD:"+callee, call.Pos(), args[0])
+				}
+			}
+			return nil, false
+		}, ctorHook(ids), errorfHook)
+		outs, err := in.Run(&ast.FuncType{Params: &ast.FieldList{}, Results: fn.Decl.Type.Results}, nil, iter, nil, "")
+		if err != nil {
+			c.Unknown("LINENO", key, loop.Pos(), err.Error())
+			return
+		}
+		for _, o := range outs {
+			if o.Kind == "return" {
+				continue // an error leaves the function
+			}
+			paths++
+			produced := 0
+			for _, e := range o.Events {
+				switch e.Name {
+				case "PRODUCE":
+					produced++
+				case "FIELD:octosql.NewInt":
+					if field == "number" {
+						counterName = e.Args[0].Canon()
+					}
+				case "FIELD:octosql.NewString":
+					if field == "text" {
+						textOK = e.Args[0].Canon() == "SCANNED-TEXT"
+					}
+				}
+			}
+			if produced != 1 {
+				bad = fmt.Sprintf("one record per scanned line must be produced (%d on a path)", produced)
+			}
+		}
+	}
+	initZero, incOnce := false, false
+	if counterName != "" && regexp.MustCompile(`^\w+$`).MatchString(counterName) {
+		// the counter's definition is the constant 0
+		ast.Inspect(fn.Decl.Body, func(n ast.Node) bool {
+			if as, ok := n.(*ast.AssignStmt); ok && as.Tok == token.DEFINE && len(as.Lhs) == len(as.Rhs) {
+				for i, l := range as.Lhs {
+					if id, ok := l.(*ast.Ident); ok && id.Name == counterName {
+						if tv, ok := info.Types[as.Rhs[i]]; ok && tv.Value != nil && tv.Value.Kind() == constant.Int && constant.Sign(tv.Value) == 0 {
+							initZero = true
+						}
+					}
 				}
 			}
 			return true
 		})
-		return true
-	})
-	if counter == nil {
-		c.Unknown("LINENO", key, loop.Pos(), "the `number` field is not filled from a counter variable")
-		return
-	}
-	direct, nested := countIncrements(loop.Body.List, counter, info)
-	// initial value 0
-	initZero := false
-	ast.Inspect(fn.Decl.Body, func(n ast.Node) bool {
-		if as, ok := n.(*ast.AssignStmt); ok && as.Tok == token.DEFINE && len(as.Lhs) == 1 && len(as.Rhs) == 1 {
-			if id, ok := as.Lhs[0].(*ast.Ident); ok && info.ObjectOf(id) == counter {
-				r := core.ExprStr(as.Rhs[0])
-				initZero = r == "0" || r == "int64(0)"
-			}
-		}
-		return true
-	})
-	// the increment comes after the produce call
-	incAfterProduce := false
-	seenProduce := false
-	for _, s := range loop.Body.List {
-		ast.Inspect(s, func(n ast.Node) bool {
-			if call, ok := n.(*ast.CallExpr); ok && p.CalleeName(info, call) == "value:produce" {
-				seenProduce = true
+		// after the iteration it is one higher, on every path that goes on (the counter is the variable of that
+		// name declared in this function — a helper's parameter may carry the same name)
+		var counterObj types.Object
+		ast.Inspect(fn.Decl.Body, func(n ast.Node) bool {
+			if id, ok := n.(*ast.Ident); ok && id.Name == counterName {
+				if o := info.Defs[id]; o != nil && counterObj == nil {
+					counterObj = o
+				}
 			}
 			return true
 		})
-		if isIncrement(s, counter, info) && seenProduce {
-			incAfterProduce = true
+		in := newInterp(p, fn)
+		in.Hooks.Loop = func(st *absint.State, l ast.Stmt) *absint.LoopSpec {
+			return &absint.LoopSpec{Cases: []string{"f"}, MaxIter: 1, RefStep: func(ref, cs string) string { return ref }}
+		}
+		in.Hooks.Store = func(st *absint.State, obj types.Object, v absint.Val) {
+			if obj == counterObj && v != nil {
+				st.Emit("COUNTER", token.NoPos, v)
+			}
+		}
+		in.Hooks.Call = chainCall(recordCtorHook, func(st *absint.State, call *ast.CallExpr, callee string, recv absint.Val, args []absint.Val) (absint.Val, bool) {
+			if callee == "value:produce" {
+				return absint.Nil{}, true
+			}
+			return nil, false
+		}, ctorHook(ids), errorfHook)
+		outs, err := in.Run(&ast.FuncType{Params: &ast.FieldList{}, Results: fn.Decl.Type.Results}, nil, iter, nil, "")
+		incOnce = err == nil && len(outs) > 0 && counterObj != nil
+		for _, o := range outs {
+			if o.Kind == "return" {
+				continue
+			}
+			last := ""
+			for _, e := range o.Events {
+				if e.Name == "COUNTER" {
+					last = e.Args[0].Canon()
+				}
+			}
+			if last != "("+counterName+" + 1)" && last != "(1 + "+counterName+")" {
+				incOnce = false
+				if last != "" {
+					bad = "after a line the counter is " + last
+				} else {
+					bad = "after a line the counter is unchanged"
+				}
+			}
 		}
 	}
-	c.Decide(direct == 1 && nested == 0 && initZero && incAfterProduce && textOK, "LINENO", key, loop.Pos(), 4,
+	c.Decide(bad == "" && counterName != "" && initZero && incOnce && textOK, "LINENO", key, loop.Pos(), paths,
 		"number starts at 0 and advances once per record; text is the scanned line",
-		fmt.Sprintf("the lines source must number records from 0, advancing the counter exactly once per scanned line after the record is produced, and carry sc.Text() as text (unconditional increments=%d, conditional=%d, starts at zero=%v, increment after produce=%v, text from scanner=%v)", direct, nested, initZero, incAfterProduce, textOK))
+		fmt.Sprintf("the lines source must number records from 0, advancing the counter exactly once per scanned line after the record is produced, and carry sc.Text() as text (number taken from %q, starts at zero=%v, advances by one per line=%v, text from scanner=%v) %s", counterName, initZero, incOnce, textOK, bad))
 }
 
 // ---------------------------------------------------------------- json reader
@@ -849,22 +959,68 @@ func checkStdin(c *core.Ctx) {
 		return true
 	})
 	c.Decide(n == 2 && bad == "", "STDIN", key+"/order", fn.Decl.Pos(), n, "previewed bytes first, then the rest of stdin (both modes)", "stdin must be read as the previewed portion followed by the rest: "+bad+fmt.Sprintf(" (MultiReader calls=%d)", n))
-	// the preview copy holds the whole buffer
+	// the preview copy holds the whole buffer: what the preview-mode MultiReader replays is a private copy of all of
+	// the buffer's bytes — make+copy, append to an empty slice, bytes.Clone / slices.Clone, or a round trip through string
 	copyOK := false
+	wholeCopy := func(e ast.Expr) bool {
+		e = core.Unparen(e)
+		call, ok := e.(*ast.CallExpr)
+		if !ok {
+			return false
+		}
+		fun := core.ExprStr(call.Fun)
+		isBytes := func(x ast.Expr) bool { return strings.HasSuffix(core.ExprStr(core.Unparen(x)), ".Bytes()") }
+		switch {
+		case fun == "append" && len(call.Args) == 2 && call.Ellipsis.IsValid() && isBytes(call.Args[1]):
+			a0 := core.ExprStr(call.Args[0])
+			return a0 == "[]byte(nil)" || a0 == "[]byte{}" || strings.HasPrefix(a0, "make([]byte, 0")
+		case (fun == "bytes.Clone" || fun == "slices.Clone") && len(call.Args) == 1:
+			return isBytes(call.Args[0])
+		case fun == "[]byte" && len(call.Args) == 1:
+			in := core.ExprStr(core.Unparen(call.Args[0]))
+			return strings.HasSuffix(in, ".String()") || (strings.HasPrefix(in, "string(") && strings.HasSuffix(in, ".Bytes())"))
+		}
+		return false
+	}
 	ast.Inspect(fn.Decl.Body, func(nd ast.Node) bool {
-		if call, ok := nd.(*ast.CallExpr); ok && core.ExprStr(call.Fun) == "copy" && len(call.Args) == 2 {
-			if strings.Contains(core.ExprStr(call.Args[1]), "previewedBuffer.Bytes()") {
-				// destination made with the buffer's length
-				dst := core.ExprStr(call.Args[0])
-				ast.Inspect(fn.Decl.Body, func(m ast.Node) bool {
-					if as, ok := m.(*ast.AssignStmt); ok && len(as.Lhs) == 1 && core.ExprStr(as.Lhs[0]) == dst {
-						if mk, ok := as.Rhs[0].(*ast.CallExpr); ok && core.ExprStr(mk.Fun) == "make" && len(mk.Args) == 2 && core.ExprStr(mk.Args[1]) == "previewedBuffer.Len()" {
-							copyOK = true
-						}
-					}
-					return true
-				})
-			}
+		call, ok := nd.(*ast.CallExpr)
+		if !ok || p.CalleeName(info, call) != "io.MultiReader" || len(call.Args) != 2 || !strings.Contains(core.ExprStr(call.Args[1]), "stdinPreviewingReader") {
+			return true
+		}
+		first, ok := call.Args[0].(*ast.CallExpr)
+		if !ok || len(first.Args) != 1 {
+			return true
+		}
+		src := core.Unparen(first.Args[0])
+		if wholeCopy(src) {
+			copyOK = true
+			return true
+		}
+		id, ok := src.(*ast.Ident)
+		if !ok {
+			return true
+		}
+		obj, _ := info.Uses[id].(*types.Var)
+		if obj == nil {
+			return true
+		}
+		def := singleDef(info, fn.Decl.Body, obj)
+		if def == nil {
+			return true
+		}
+		if wholeCopy(def) {
+			copyOK = true
+			return true
+		}
+		// make([]byte, B.Len()) filled by copy(dst, B.Bytes())
+		if mk, ok := core.Unparen(def).(*ast.CallExpr); ok && core.ExprStr(mk.Fun) == "make" && len(mk.Args) == 2 && strings.HasSuffix(core.ExprStr(mk.Args[1]), ".Len()") {
+			buf := strings.TrimSuffix(core.ExprStr(mk.Args[1]), ".Len()")
+			ast.Inspect(fn.Decl.Body, func(m ast.Node) bool {
+				if cp, ok := m.(*ast.CallExpr); ok && core.ExprStr(cp.Fun) == "copy" && len(cp.Args) == 2 && core.ExprStr(cp.Args[0]) == id.Name && core.ExprStr(cp.Args[1]) == buf+".Bytes()" {
+					copyOK = true
+				}
+				return true
+			})
 		}
 		return true
 	})
